@@ -8,6 +8,7 @@ from valida.errors import (
     DuplicateRule,
     IncompatibleRules,
     MalformedDataPathSpec,
+    NotADataPathSpec,
 )
 
 
@@ -151,7 +152,7 @@ class DataPath:
         }
 
         if not isinstance(spec, dict) or not spec:
-            raise MalformedDataPathSpec(general_msg)
+            raise NotADataPathSpec(general_msg)
         else:
             spec_key, spec_val = next(iter(spec.items()))  # single-item dict
 
@@ -166,18 +167,23 @@ class DataPath:
             }
 
         if len(spec) > 1:
-            raise MalformedDataPathSpec(
+            raise NotADataPathSpec(
                 f"A data path should be specified with exactly one "
                 f"specification key (but found keys: {list(spec.keys())}). {general_msg}"
             )
 
         if not isinstance(spec_key, str):
-            raise MalformedDataPathSpec(general_msg)
+            raise NotADataPathSpec(general_msg)
 
         spec_key_split = [i.lower() for i in spec_key.split(".")]
         spec_key_split_len = len(spec_key_split)
 
-        if spec_key_split[0] != "path" or spec_key_split_len not in range(1, 4):
+        if spec_key_split[0] != "path":
+            raise NotADataPathSpec(general_msg)
+
+        # from here on the specification is that of a data path, so any further problem
+        # means it is malformed (rather than, e.g., a literal mapping argument):
+        if spec_key_split_len not in range(1, 4):
             raise MalformedDataPathSpec(general_msg)
 
         obj = cls.from_part_specs(*spec_val)
